@@ -212,7 +212,7 @@ fn do_replay(ctx: &Ctx, def: &props::PropDef, path: &str) -> ! {
     if let Some(base) = subname.strip_suffix("[dbg]") {
         if ctx.profile != "dbg" {
             // the case failed in the debug-assertions build: replay it there
-            let bin = format!("{}/target/dbg/vcheck", verif_root());
+            let bin = props::c14::worker_bin("dbg");
             let st = std::process::Command::new(&bin).args(std::env::args().skip(1)).status();
             std::process::exit(st.ok().and_then(|s| s.code()).unwrap_or(2));
         }
